@@ -4,6 +4,7 @@ package vgirpc
 
 import (
 	"bytes"
+	"encoding/binary"
 	"context"
 	"crypto/sha256"
 	"encoding/hex"
@@ -132,6 +133,33 @@ func vfC30Shapes() []vfC30Shape {
 				{Name: "s", Type: arrow.BinaryTypes.String, Nullable: true, Metadata: arrow.NewMetadata([]string{"fk"}, []string{"fv"})},
 			}, sm), `[{"n":1,"s":"one"},{"n":2,"s":null}]`)
 		}},
+		// incompressible payloads (a sha256 chain: deterministic, high entropy): zstd output is
+		// not smaller than the input for the column data, which exercises the
+		// "compression configured but it does not pay" corner of the upload path
+		{name: "int64-high-entropy", mk: func(sm *arrow.Metadata) arrow.RecordBatch {
+			raw := vfC30Entropy(8 * 2048)
+			b := array.NewInt64Builder(vfMem)
+			defer b.Release()
+			for i := 0; i+8 <= len(raw); i += 8 {
+				b.Append(int64(binary.LittleEndian.Uint64(raw[i:])))
+			}
+			arr := b.NewArray()
+			defer arr.Release()
+			sc := arrow.NewSchema([]arrow.Field{{Name: "c", Type: arrow.PrimitiveTypes.Int64}}, sm)
+			return array.NewRecordBatch(sc, []arrow.Array{arr}, int64(arr.Len()))
+		}},
+		{name: "binary-high-entropy", mk: func(sm *arrow.Metadata) arrow.RecordBatch {
+			raw := vfC30Entropy(32 * 1024)
+			b := array.NewBinaryBuilder(vfMem, arrow.BinaryTypes.Binary)
+			defer b.Release()
+			b.Append(raw[:20000])
+			b.AppendNull()
+			b.Append(raw[20000:])
+			arr := b.NewArray()
+			defer arr.Release()
+			sc := arrow.NewSchema([]arrow.Field{{Name: "c", Type: arrow.BinaryTypes.Binary, Nullable: true}}, sm)
+			return array.NewRecordBatch(sc, []arrow.Array{arr}, int64(arr.Len()))
+		}},
 	}
 }
 
@@ -195,6 +223,17 @@ func vfC30Diff(want arrow.RecordBatch, wantMeta string, got arrow.RecordBatch, g
 }
 
 var vfC30Dec, _ = zstd.NewReader(nil, zstd.WithDecoderConcurrency(1))
+
+// vfC30Entropy returns n deterministic high-entropy bytes (sha256 chain from a fixed seed).
+func vfC30Entropy(n int) []byte {
+	out := make([]byte, 0, n+32)
+	h := sha256.Sum256([]byte("vgi-verif-c30"))
+	for len(out) < n {
+		out = append(out, h[:]...)
+		h = sha256.Sum256(h[:])
+	}
+	return out[:n]
+}
 
 func vfC30Sha(b []byte) string { h := sha256.Sum256(b); return hex.EncodeToString(h[:]) }
 
@@ -285,6 +324,13 @@ func TestVerif_C30(t *testing.T) {
 			return
 		}
 		upEnc := st.objs[st.order[0]].enc
+		if upEnc == "zstd" {
+			// the store serves every object with exactly the encoding it was uploaded with, so an
+			// object labelled zstd has to BE zstd
+			if _, derr := vfC30Dec.DecodeAll(st.objs[st.order[0]].data, nil); derr != nil {
+				x.Failf(cls+":uploaded-object-labelled-zstd-is-not-zstd", "%s %s: upload declared Content-Encoding zstd but the %d stored bytes do not decode: %v", sh.name, rel, len(st.objs[st.order[0]].data), derr)
+			}
+		}
 		if zs != (upEnc == "zstd") {
 			x.Failf(cls+":compression-setting-ignored", "zstd=%v but upload declared encoding %q", zs, upEnc)
 		}
@@ -414,7 +460,7 @@ func TestVerif_C30(t *testing.T) {
 	// ---- space 3: tampering ---------------------------------------------------
 	masks := venum.QT([]byte{0xFF}, []byte{0x01, 0xFF})
 	venum.Explore(t, venum.Cfg{Name: "tamper", Shardable: true}, func(x *venum.X) {
-		sh := shapes[x.Choose(venum.QT(2, len(shapes)), "shape")]
+		sh := shapes[x.Choose(venum.QT(2, 10), "shape")] // the small shapes; the large high-entropy ones add nothing here
 		zs := x.Bool("zstd")
 		kind := x.Pick("tamper", "flip", "truncate", "wrong-checksum", "none")
 		orig := vfWithMeta(sh.mk(nil), "k", "v")
